@@ -19,6 +19,8 @@ pub mod c12;
 pub mod c13;
 pub mod c14;
 pub mod c15;
+pub mod c16;
+pub mod c16legs;
 
 /// generator entry points shared with C14
 pub fn c06gen(rng: &mut crate::fw::Rng) -> Vec<crate::gen::ir::Node> {
@@ -46,6 +48,7 @@ pub fn run(ctx: &Ctx) -> i32 {
         "C13" => c13::run(ctx),
         "C14" => c14::run(ctx),
         "C15" => c15::run(ctx),
+        "C16" => c16::run(ctx),
         other => {
             eprintln!("unknown property {}", other);
             2
@@ -72,6 +75,7 @@ pub fn replay(ctx: &Ctx, v: &Value) -> i32 {
         "C13" => c13::replay(ctx, case),
         "C14" => c14::replay(ctx, case),
         "C15" => c15::replay(ctx, case),
+        "C16" => c16::replay(ctx, case),
         other => {
             eprintln!("unknown property {}", other);
             2
@@ -104,6 +108,6 @@ pub fn selfcheck() -> i32 {
     0
 }
 
-pub fn worker(_args: &[String]) -> i32 {
-    2
+pub fn worker(args: &[String]) -> i32 {
+    crate::monitor::worker::worker_main(args)
 }
